@@ -90,6 +90,7 @@ class Repo:
         if normalise and not os.environ.get('BISTAT_NO_INLINE'):
             from .normal import inline_helpers
             inline_helpers(self)
+        self.note_context_managers()
 
     def _class_method_aliases(self):
         """``class C: m = Other.method`` (a plain method of a package class, named through its
@@ -713,6 +714,15 @@ class Repo:
                     out.add(n)
             self._makers = out
         return self._makers
+
+    def note_context_managers(self):
+        from . import lts
+        lts.PACKAGE_CONTEXT_MANAGERS.clear()
+        lts.PACKAGE_CONTEXT_MANAGERS.update(c.name for c in self.classes.values() if '__exit__' in c.methods)
+        # functions decorated with contextlib.contextmanager are context managers too
+        for (m, n), fi in self.module_funcs.items():
+            if any('contextmanager' in ast.unparse(d) for d in fi.node.decorator_list):
+                lts.PACKAGE_CONTEXT_MANAGERS.add(n)
 
     def records(self):
         """immutable record types of the package: name -> (fields, {method: (params, expression)},
